@@ -285,9 +285,163 @@ def rule_wiring(chk, fb):
         chk.ob(rd, "apply:%s" % comp, okw and used, where=fb.loc(d), detail="writer sets apply_%s under %s; reconstruction guards the component with its own flag: %s" % (comp, sorted(guards), used))
 
 
+def _cond_fields(fb, fl, b, blocks, adt):
+    """Fields of `adt` that the branch conditions of `blocks` depend on (directly or through getters)."""
+    from e2 import fields_read
+
+    out = set()
+    for x in blocks:
+        t = b["blocks"][x]["t"]
+        if t["k"] != "switch":
+            continue
+        for a in fl.atoms(t["op"]):
+            if a[0] == "field" and a[1] == adt:
+                out.add(a[2])
+            elif a[0] == "call" and fb.mir.get(a[1], {}).get("self_ty") == adt:
+                out |= fields_read(fb, a[1], adt)
+    return out
+
+
+def rule_run_merge(chk, fb):
+    """Adjacent <col> entries are written as one run min..max carrying the attributes of the first: two columns may
+    be merged only if everything that is written for the run was compared equal."""
+    from cfg import CFG
+    from mirq import Flow
+    from e2 import fields_read
+
+    COL = "structs::column::Column"
+    r = chk.rule(
+        "C05.e.merge",
+        "run-length merging of columns: the step that extends a <col min..max> run is dominated by equality tests that together cover every Column field the run writer emits (no path merges two columns without comparing a written field)",
+        floor=3,
+    )
+    fn = next((d for d, b in fb.mir.items() if b.get("self_ty", "").endswith("::Columns") and b["kind"] == "AssocFn" and any(t.get("fn", "").endswith("Columns::write_to_column") for _, t in fb.calls_in(b))), None)
+    if not fn:
+        chk.ob(r, "anchor", False, detail="the function that groups columns into runs (calls write_to_column) was not found")
+        return
+    b = fb.mir[fn]
+    chk.touch(fn)
+    fl = Flow(fb, b)
+    cfg = CFG(b)
+    emit = next(t.get("fn") for _, t in fb.calls_in(b) if t.get("fn", "").endswith("write_to_column"))
+    written = fields_read(fb, emit, COL)
+    # the `max` local: 4th argument of the emit call is &max
+    max_locals = set()
+
+    def root(l, depth=0):
+        for bl in b["blocks"]:
+            for st in bl["s"]:
+                if st["k"] == "assign" and st["lhs"]["l"] == l and not st["lhs"].get("pr") and st["rv"]["k"] == "ref":
+                    pl = st["rv"]["place"]
+                    if not pl.get("pr"):
+                        return pl["l"]
+                    if depth < 4:
+                        return root(pl["l"], depth + 1)
+        return None
+
+    for bi, t in fl.calls(lambda t: t.get("fn") == emit):
+        if len(t["args"]) > 3 and "p" in t["args"][3]:
+            x = root(t["args"][3]["p"]["l"])
+            if x is not None:
+                max_locals.add(x)
+    merges = []
+    for bi, bl in enumerate(b["blocks"]):
+        for st in bl["s"]:
+            if st["k"] == "assign" and st["rv"]["k"] == "bin" and st["rv"]["op"] in ("AddWithOverflow", "Add") and st["rv"]["a"].get("p", {}).get("l") in max_locals and st["rv"]["b"].get("i") == 1:
+                # the increment that is stored back (not the `max + 1` of the adjacency test)
+                tgt = b["blocks"][bi]["t"]
+                nxt = tgt.get("t") if tgt["k"] == "assert" else None
+                stored = False
+                for bj in ([bi] + ([nxt] if nxt is not None else [])):
+                    for s2 in b["blocks"][bj]["s"]:
+                        if s2["k"] == "assign" and s2["lhs"]["l"] in max_locals and not s2["lhs"].get("pr"):
+                            stored = True
+                if stored:
+                    merges.append(bi)
+    if not merges:
+        chk.ob(r, "%s:merge-step" % fn, False, where=fb.loc(fn), detail="no `max += 1` merge step found in the run grouping function")
+        return
+    for m in merges:
+        doms = [x for x in cfg.reach if cfg.dominates(x, m) and b["blocks"][x]["t"]["k"] == "switch"]
+        # only equality tests count: the switch operand derives from a PartialEq::eq call
+        eq_blocks = []
+        for x in doms:
+            at = fl.atoms(b["blocks"][x]["t"]["op"], through_calls=False)
+            if any(a[0] == "call" and a[1].endswith("::eq") for a in at):
+                eq_blocks.append(x)
+        compared = _cond_fields(fb, fl, b, eq_blocks, COL)
+        for f in sorted(written):
+            where = "%s:%s" % (b["file"], b["blocks"][m]["t"].get("ln", b["line"]))
+            chk.ob(r, "%s:merge requires equal `%s`" % (fn, f), f in compared, where=where,
+                   detail="run writer emits Column.%s; equality tests dominating the merge step cover %s" % (f, sorted(compared)))
+
+
+def rule_loop_emits(chk, fb):
+    """Nothing is dropped by the sheet writer's loops: each row / cell met is written on every path through the loop
+    body, unless the bypass is decided by conditions that look at every persisted field."""
+    from cfg import CFG
+    from mirq import Flow
+    from e2 import fields_read
+
+    r = chk.rule(
+        "C05.f.rows",
+        "no row/cell is dropped: in the sheet writer every path through the row loop (cell loop) body reaches the element's write_to, or the bypass is control-dependent only on conditions that read every field write_to persists",
+        floor=2,
+    )
+    fn = "writer::xlsx::worksheet::write"
+    b = fb.mir.get(fn)
+    if not b:
+        chk.ob(r, "anchor", False, detail="sheet writer not found")
+        return
+    chk.touch(fn)
+    fl = Flow(fb, b)
+    cfg = CFG(b)
+    loops = [(t, h, cfg.natural_loop(t, h)) for t, h in cfg.back_edges()]
+    for adt, key in (("structs::row::Row", "row_num"), ("structs::cell::Cell", "coordinate")):
+        short = adt.split("::")[-1]
+        W = [bi for bi, t in fl.calls(lambda t, a=adt: fb.mir.get(t.get("fn", ""), {}).get("self_ty") == a and t["fn"].endswith("::write_to"))]
+        if not W:
+            chk.ob(r, "%s:written" % short, False, where=fb.loc(fn), detail="no call of %s::write_to in the sheet writer" % short)
+            continue
+        wfn = b["blocks"][W[0]]["t"]["fn"]
+        cands = [(len(n), t, h, n) for t, h, n in loops if all(w in n for w in W)]
+        if not cands:
+            chk.ob(r, "%s:written" % short, False, where=fb.loc(fn), detail="%s::write_to is not called from a loop" % short)
+            continue
+        head = min(cands)[2]
+        body = set().union(*[n for t, h, n in loops if h == head])
+        tails = [t for t, h, n in loops if h == head]
+        # is there a path head -> tail inside the loop that avoids every write?
+        seen = set()
+        work = [head]
+        while work:
+            x = work.pop()
+            if x in seen or x in W or x not in body:
+                continue
+            seen.add(x)
+            for s_ in cfg.succ[x]:
+                if s_ == head:
+                    continue
+                work.append(s_)
+        bypass = any(t in seen for t in tails)
+        if not bypass:
+            chk.ob(r, "%s:written" % short, True, where=fb.loc(fn), detail="every path through the %s loop body passes %s::write_to" % (short.lower(), short))
+            continue
+        deps = set()
+        for w in W:
+            deps |= {x for x in cfg.control_deps_transitive(w) if x in body}
+        need = fields_read(fb, wfn, adt) - {key}
+        have = _cond_fields(fb, fl, b, deps, adt)
+        miss = sorted(need - have)
+        chk.ob(r, "%s:written" % short, not miss, where=fb.loc(fn),
+               detail="some path through the %s loop skips %s::write_to; the deciding conditions read %s but write_to persists also %s" % (short.lower(), short, sorted(have), miss))
+
+
 def run(chk, fb, tier):
     rule_coverage(chk, fb)
     rule_ambiguity(chk, fb)
     rule_wiring(chk, fb)
+    rule_run_merge(chk, fb)
+    rule_loop_emits(chk, fb)
     chk.assume("MD5 digests of different key strings differ (collision-free for the purpose of interning)")
     chk.note("C05.e (reader/writer symmetry of the style structs) is decided by the symmetry engine under C04.b; not decided: equality of reloaded styles (value-level)")
